@@ -90,7 +90,9 @@ def _alarm(signum, frame):
 @contextlib.contextmanager
 def time_limit(seconds):
     old = signal.signal(signal.SIGALRM, _alarm)
-    signal.setitimer(signal.ITIMER_REAL, seconds)
+    # repeating: an alarm that lands inside a __del__ / except-all is swallowed by the
+    # interpreter ('Exception ignored in'), so keep firing until the block is left
+    signal.setitimer(signal.ITIMER_REAL, seconds, 0.05)
     try:
         yield
     finally:
